@@ -1,8 +1,8 @@
 #!/usr/bin/env python3
 """Confirm a seeded change delivered by a sub-agent and file it under /verif/seeded/.
 
-usage: seed_confirm.py <prop> <n> "<what it needs to manifest>"
-Reads /tmp/seeds/<prop>/patch<n>.diff and demo<n>.py.  In a scratch worktree of /repo's HEAD:
+usage: seed_confirm.py <prop> <n> "<what it needs to manifest>" [<source dir> [<number under /verif/seeded>]]
+Reads <source dir>/patch<n>.diff and demo<n>.py (default source dir /tmp/seeds/<prop>).  In a scratch worktree of /repo's HEAD:
   1. demo passes on the unchanged tree,
   2. patch applies, the 82 tests still pass,
   3. demo fails with the patch.
@@ -15,7 +15,8 @@ import subprocess
 import sys
 
 prop, n, needs = sys.argv[1], sys.argv[2], sys.argv[3]
-src = f"/tmp/seeds/{prop}"
+src = sys.argv[4] if len(sys.argv) > 4 else f"/tmp/seeds/{prop}"
+dn = sys.argv[5] if len(sys.argv) > 5 else n
 wt = f"/tmp/wtc/{prop}-{n}"
 py = "/venv/bin/python"
 
@@ -49,7 +50,7 @@ try:
 finally:
     sh(f"git -C /repo worktree remove --force {wt}")
 if ok:
-    dst = f"/verif/seeded/{prop}-{n}"
+    dst = f"/verif/seeded/{prop}-{dn}"
     os.makedirs(dst, exist_ok=True)
     shutil.copy(f"{src}/patch{n}.diff", f"{dst}/patch.diff")
     shutil.copy(f"{src}/demo{n}.py", f"{dst}/demo.py")
